@@ -130,14 +130,9 @@ func (c *canonCtx) unbackedWildcard(v reflect.Value) bool {
 	if v.Type() != gsType {
 		return false
 	}
-	if v.FieldByName("FromWildcard").Bool() {
-		return true
-	}
-	// an explicit entry of a gateway that also has a wildcard: the registration path overwrites
-	// it with a copy of the wildcard row (checkGatewayWildcardsAndUpdate does not look for it),
-	// the config-entry path keeps it
-	gw := strings.ToLower(v.FieldByName("Gateway").FieldByName("Name").String())
-	return c.wgw[gw] && v.FieldByName("Service").FieldByName("Name").String() != structs.WildcardSpecifier
+	// (an explicit entry of a gateway that also has a wildcard used to be overwritten by the
+	// registration path; repaired by a882280, so explicit rows are compared)
+	return v.FieldByName("FromWildcard").Bool()
 }
 
 func (c *canonCtx) render(v interface{}) string {
